@@ -257,6 +257,8 @@ fn cases() -> impl Strategy<Value = Case> {
         3 => (proptest::sample::select(&["min", "max"][..]), proptest::collection::vec((number(), len.clone()), 1..5)).prop_map(|(f, v)| Case { f: f.into(), args: v.into_iter().map(|(v, u)| Arg { v, u: u.into() }).collect() }),
         1 => (proptest::sample::select(&["min", "max"][..]), proptest::collection::vec(number(), 1..5)).prop_map(|(f, v)| Case { f: f.into(), args: v.into_iter().map(|v| Arg { v, u: String::new() }).collect() }),
         1 => (proptest::sample::select(&["min", "max"][..]), proptest::collection::vec(arg.clone(), 2..4)).prop_map(|(f, args)| Case { f: f.into(), args }),
+        // bounds as drawn (min > max in half of the cases)
+        1 => (number(), number(), number(), len.clone(), len.clone(), len.clone()).prop_map(|(a, b, c, u1, u2, u3)| Case { f: "clamp".into(), args: vec![Arg { v: a, u: u1.into() }, Arg { v: b, u: u2.into() }, Arg { v: c, u: u3.into() }] }),
         2 => (number(), number(), number(), len.clone(), len.clone(), len.clone()).prop_map(|(a, b, c, u1, u2, u3)| {
             let mut lo = a.clone();
             let mut hi = c.clone();
